@@ -27,6 +27,20 @@ pub enum ResolveSerialized {
 // ANCHOR_END: resolve_serialized
 
 impl ResolveSerialized {
+    /// Arity discriminant for contracts: 0 = Never, 1 = Once, 2 = Many (verification only)
+    #[cfg(kani)]
+    pub(crate) fn kind(&self) -> u8 {
+        match self {
+            ResolveSerialized::Never => 0,
+            ResolveSerialized::Once(_) => 1,
+            ResolveSerialized::Many(_) => 2,
+        }
+    }
+
+    #[cfg_attr(kani, kani::modifies(self))]
+    #[cfg_attr(kani, kani::ensures(|r| old(self.kind()) != 0 || (self.kind() == 0 && matches!(r, Err(BridgeError::ProcessResponse(ResolveError::Never))))))]
+    #[cfg_attr(kani, kani::ensures(|r| old(self.kind()) != 1 || self.kind() == 0))]
+    #[cfg_attr(kani, kani::ensures(|r| old(self.kind()) != 2 || self.kind() == 2))]
     pub(crate) fn resolve(
         &mut self,
         bytes: &mut dyn erased_serde::Deserializer,
